@@ -143,6 +143,55 @@ def check_model(case):
     return res
 
 
+def check_container(case):
+    """A plain VectorContainer exports every variable (there are no flags, no status and no internal/public split)."""
+    from fsic.core.containers import VectorContainer
+    desc = case['span']
+    labels = spans.labels(desc)
+    n = len(labels)
+    c = VectorContainer(spans.build(desc))
+    for j in case.get('extras') or []:
+        nm, dt = EXTRAS[j % len(EXTRAS)]
+        if nm in c.index:
+            continue
+        if dt == 'int':
+            c.add_variable(nm, list(range(n)), dtype=int)
+        elif dt == 'bool':
+            c.add_variable(nm, [i % 2 == 0 for i in range(n)] if n else True, dtype=bool)
+        elif dt == 'str':
+            c.add_variable(nm, ['s%d' % i for i in range(n)] if n else 'x', dtype=str)
+        else:
+            c.add_variable(nm, np.arange(n) * 0.5, dtype=float)
+    res = Result(nontrivial=len(c.index) >= 2, classes=['container', 'span:' + desc['k']])
+    detail = f'container span={labels!r} variables={list(c.index)}'
+    out = attempt(c.to_dataframe)
+    if not out.ok:
+        res.fail(f'container/to_dataframe/raised-{out.exc_name}', f'{detail}: {out!r}')
+        return res
+    df = out.value
+    if list(df.columns) != list(c.index):
+        res.fail('container/to_dataframe/columns', f'{detail}: columns {list(df.columns)}')
+        return res
+    if len(c.index) and (len(df.index) != n or any(spans.pos([a], b) != 0 for a, b in zip(list(df.index), labels))):
+        res.fail('container/to_dataframe/index', f'{detail}: index {list(df.index)!r}')
+        return res
+    for nm in c.index:
+        series = np.asarray(c[nm])
+        col = df[nm]
+        if not all(same_value(a, b) for a, b in zip(col.to_numpy().tolist(), series.tolist())):
+            res.fail(f'container/to_dataframe/values/{series.dtype.kind}', f'{detail}: column {nm} = {col.to_numpy().tolist()}, series {series.tolist()}')
+        elif series.dtype.kind in 'fiub' and col.dtype != series.dtype:
+            res.fail(f'container/to_dataframe/dtype/{series.dtype.kind}', f'{detail}: column {nm} has dtype {col.dtype}, series {series.dtype}')
+    return res
+
+
+def strat_container():
+    from hypothesis import strategies as st
+    descs = spans.catalogue(4, min_len=0)
+    return st.fixed_dictionaries({'span': st.sampled_from(descs),
+                                  'extras': st.lists(st.integers(0, len(EXTRAS) - 1), max_size=6)})
+
+
 def check_linker(case):
     res = Result(nontrivial=True, classes=['linker', f'submodels={len(case["subs"])}'])
     desc = case['span']
@@ -278,6 +327,7 @@ def phases(tier):
     quick = tier == 'quick'
     return [
         Phase('models', check_model, strategy=strat_model, examples=1600 if quick else 20000),
+        Phase('containers', check_container, strategy=strat_container, examples=400 if quick else 4000),
         Phase('linkers', check_linker, strategy=strat_linker, examples=600 if quick else 6000),
         Phase('symbol-lists-enumerated', check_symbols, gen=gen_symbols(), exhaustive=True),
         Phase('symbol-lists', check_symbols, strategy=strat_symbols, examples=2500 if quick else 30000),
